@@ -8,3 +8,6 @@ open LhasaV.Props.C16
 #print axioms skip_kinds
 #print axioms kinds_agree
 #print axioms kinds_agree_n
+#print axioms tool_kind_independent
+#print axioms tool_prefix_transparent
+#print axioms listing_kind_independent
